@@ -48,6 +48,7 @@ SIGNATURES = {
                  ('retry', False)]),
     'peekitem': (0, [('last', True), ('expire_time', False), ('tag', False), ('retry', False)]),
     'evict': (1, [('retry', False)]),
+    'expire': (0, [('now', None), ('retry', False)]),
     'cull': (0, [('retry', False)]),
     'clear': (0, [('retry', False)]),
     'stats': (0, [('enable', True), ('reset', False)]),
@@ -115,6 +116,7 @@ class CacheDriver:
         import random
         self.spell_rng = random.Random(0x5be11)     # which calls are spelled positionally (deterministic per driver)
         self.positional_spellings = 0
+        self.calls_with_retry = 0
 
     def close(self):
         for o in self.observers:
@@ -154,8 +156,14 @@ class CacheDriver:
                 raise Mismatch('%s yields more than %d keys for %d stored items (does not terminate?)' % (
                     op, cap, len(self.model.items)), self.witness())
             return out
+        # retry=True asks a call to wait for a busy database instead of raising Timeout; nobody else is writing during a
+        # lock-step history, so it must not change anything: a share of the calls that accept it are made with it
+        accepts_retry = op in SIGNATURES and SIGNATURES[op][1][-1][0] == 'retry'
+        if 'retry' not in kw and (accepts_retry or op == 'expire') and self.spell_rng.random() < 0.2:
+            kw['retry'] = True
+            self.calls_with_retry += 1
         if op == 'expire' and self.kind == 'fanout':
-            return r.expire()
+            return r.expire(**({'retry': True} if kw.get('retry') else {}))
         pargs, pkw = spell_positionally(self.spell_rng, op, args, kw)
         if len(pargs) != len(args):
             self.positional_spellings += 1
@@ -201,7 +209,7 @@ class CacheDriver:
         mdl = self.model
         mdl.begin(reads)               # may raise Ambiguous
         margs = args
-        expected = getattr(mdl, 'op_' + op)(*margs, **kw)
+        expected = getattr(mdl, 'op_' + op)(*margs, **{k: v for k, v in kw.items() if k != 'retry'})
         rows, sets = self.dump()
         self.removed_by_policy = 0
         if self.block is not None:
